@@ -349,10 +349,8 @@ func c19WordRun(c c19WordCase) Verdict {
 		return failf("panic", "input %s: server logged a panic: %s", q(c.Word), p)
 	}
 	// every line over this alphabet is unrecognised or malformed
+	// (an unterminated tail is not a line: the connection ended first, D33)
 	nlines := bytes.Count(c.Word, []byte("\n"))
-	if i := bytes.LastIndexByte(c.Word, '\n'); len(c.Word[i+1:]) > 0 {
-		nlines++ // unterminated tail is handed out at EOF
-	}
 	out := w.Out
 	lines := bytes.Split(bytes.TrimSuffix(out, []byte("\r\n")), []byte("\r\n"))
 	skip := 1
